@@ -191,9 +191,27 @@ def hist (opToks impl : List String) : String :=
     | _, _, _, _, _, _, _ => "E E bad-impl-output"
   | _, _ => "E E bad-case"
 
+def dashList (sep : String) (s : String) : List String := if s == "-" || s.isEmpty then [] else s.splitOn sep
+def renderDash (sep : String) (l : List String) : String := if l.isEmpty then "-" else joinWith sep l
+
+/-- `rm <m|a> <hosts> <addrs>`: ONE `RemoveClusterHosts` (m) / `TriggerHostDel` (a) call with the listed addresses on cluster `c`
+holding `hosts`; implementation output `<ok|err> <live addrs> <stored addrs> <listed addresses still served>`. -/
+def rm (hostsTok addrsTok : String) (impl : List String) : String :=
+  match (dashList "," hostsTok).mapM parseHost, impl with
+  | some hosts, [res, live, stored, served] =>
+    let addrs := dashList "," addrsTok
+    let mob := rmObserve stdOracle hosts addrs
+    let mout := s!"{okTok mob.ok} {renderDash "+" mob.live} {renderDash "+" mob.stored} {renderDash "+" mob.served}"
+    let iob : Spec.RmObs := ⟨res == "ok", dashList "+" live, dashList "+" stored, dashList "+" served⟩
+    let agree := s!"{res} {live} {stored} {served}" == mout
+    let spec := (res == "ok" || res == "err") && Spec.rmHolds (hosts.map (·.addr)) addrs iob
+    s!"{if agree then "A" else "D"} {if spec then "S" else "V"} {mout}"
+  | _, _ => "E E bad-rm-case"
+
 def run (caseToks impl : List String) : String :=
   match caseToks with
   | "hist" :: ops => hist ops impl
+  | ["rm", _, hs, as] => rm hs as impl
   -- support run: lookups concurrent with updates must have seen only whole configurations
   | ["conc", _, _] => if impl == ["ok"] then "A S ok" else "D V ok"
   | _ => "E E unknown-kind"
